@@ -21,13 +21,13 @@ chk("C03", "model_checking",
 
 chk("C10", "model_checking",
     "stateless complete enumeration of event programs x step schedules (count cuts, time cuts, paused external adds) on the real Runtime; differential against the real uninterrupted run plus a pending-set shadow",
-    "All programs of up to 3/4 events x all schedules of up to 2/3 steps over dispatch_n_events(0..3), dispatch_events_until(every timestamp and +-1ns) and five placements of an external add while paused. Checks exact log equality with the uninterrupted run (no external adds), exact per-step counts/cut positions, paused sim_time / remaining / dispatched counters, acceptance of every paused add at or after the reported time, and exactly-once time-ordered delivery with external adds.",
+    "All programs of up to 3/4 events x all schedules of up to 2/3 steps (3 steps also in the quick tier for programs of up to 2 events) over dispatch_n_events(0..3), dispatch_events_until(every timestamp and +-1ns) and five placements of an external add while paused. Checks exact log equality with the uninterrupted run (no external adds), exact per-step counts/cut positions, paused sim_time / remaining / dispatched counters, acceptance of every paused add at or after the reported time, and exactly-once time-ordered delivery with external adds.",
     "Relative order of an externally added event and same-instant pending events is left to C03. Bounded program and schedule length.",
     "DESIGN.md section 4, C10")
 
 chk("C11", "model_checking",
     "stateless complete enumeration of event programs x limit trees on the real Runtime against an independent limit evaluator applied to the real unlimited log",
-    "All programs of up to 4/5 events x None, every EventCount around the total, every SimTime at/around every timestamp, And/Or of every pair in both operand orders, builder chains max_itr/max_time in both orders, and every depth-2 tree for programs of up to 3/4 events. Checks dispatched prefix, remaining events with timestamps, end time and event_count.",
+    "All programs of up to 4/5 events x None, every EventCount around the total, every SimTime at/around every timestamp, And/Or of every pair in both operand orders, builder chains max_itr/max_time in both orders, every ordered pair of plain bounds added one after the other through max_itr/max_time and through limit(..).limit(..), and every depth-2 tree for programs of up to 3/4 events. Checks dispatched prefix, remaining events with timestamps, end time and event_count.",
     "The time-ordered sequence is taken from the real unlimited run (tie-rule independent).",
     "DESIGN.md section 4, C11")
 
@@ -39,7 +39,7 @@ chk("C15", "model_checking",
 
 chk("C16", "model_checking",
     "complete enumeration of operation histories over real Message values against a typed-value model with a live-object counter",
-    "All histories of 5 (quick) / 6 (thorough) operations from 54 (set / try_cast / try_content / can_cast for 13 body types incl. layout twins u32-i32-f32-[u8;4]-newtype, derived struct/enum/nested, ZST, non-Clone; try_clone; drop). After every step: cast/borrow succeeds iff same type and yields the stored value, failure returns the message intact, stored values alive == model, length == 64 + independently computed byte length; plus one simulation per type checking the channel charges length*8/bitrate.",
+    "All histories of 4 (quick) / 5 (thorough) operations from 82 (set / try_cast / try_content / can_cast for 20 body types incl. layout twins u32-i32-f32-[u8;4]-newtype, derived struct / enum / nested / tuple struct / generic struct / 4-variant enum, Result, Box, tuple, an array with unequal element lengths, ZST, non-Clone; try_clone; drop) and of 5 / 6 operations from 38 (9 core types). After every step: cast/borrow succeeds iff same type and yields the stored value, failure returns the message intact, stored values alive == model, length == 64 + independently computed byte length; plus one simulation per type checking the channel charges length*8/bitrate.",
     "Mutation through content_mut is outside the stated alphabet. Worker crash (double free) counts as violation.",
     "DESIGN.md section 4, C16")
 
@@ -81,7 +81,7 @@ chk("C12", "model_checking",
 
 chk("C19", "model_checking",
     "complete enumeration of module multigraphs and queries on a real simulation against a reference adjacency list",
-    "All multigraphs on up to 4 (quick) / 5 (thorough) modules with parallel chains (up to 2 per pair for 3 modules, thorough also for 4), self chains, the first chain routed directly / through one transit gate on each module / through 15 transit gates (16 hops). Global view, connected, bidirectional, spanned from every root, dijkstra from every source (first edge of a BFS-minimal path), filter_nodes for every subset, filter_edges for every single edge.",
+    "All multigraphs on up to 4 (quick) / 5 (thorough) modules with parallel chains (up to 2 per pair for 3 modules, thorough also for 4), self chains, the first chain routed directly / through one transit gate on each module / through 15 transit gates (16 hops). Global view, connected, bidirectional, spanned from every root, dijkstra from every source (first edge of a BFS-minimal path), filter_nodes for every subset, filter_edges for every single edge and for the two one-directional views (edges towards higher / lower module indices only) with connected and bidirectional on the result.",
     "Chains longer than 16 hops are outside the supported range.",
     "DESIGN.md section 4, C19")
 
@@ -99,7 +99,7 @@ chk("C06", "exploration",
 
 chk("C09", "model_checking",
     "complete enumeration of shutdown/restart timelines on a real 3-module simulation against an expectation computed from the plan by interval logic",
-    "Shutdown time x restart delay (none, 0, 2, 5) x requested from handler / task x old task deadline x new task sleep x second cycle (4 variants) x route (to the victim / through its transit gate) x direct / latency channel x every set of up to 2 (quick) / 3 (thorough) message arrival times out of 10, plus shutdown requested in each of 3 start stages. No callback, task step or timer of the victim inside an inert window, messages inside it dropped and never delivered later, reset once per shutdown, start stages once at exactly the restart time, old tasks never resume and their captures are dropped, the peer receives exactly the echoes.",
+    "Shutdown time x restart delay (none, 0, 2, 5) x requested from handler / task x old task deadline x new task sleep x second cycle (4 variants) x route (to the victim / through its transit gate) x direct / latency channel / restart requested by absolute time x every set of up to 2 (quick) / 3 (thorough) message arrival times out of 10, plus shutdown requested in each of 3 start stages. No callback, task step or timer of the victim inside an inert window, messages inside it dropped and never delivered later, reset once per shutdown, start stages once at exactly the restart time, old tasks never resume and their captures are dropped, the peer receives exactly the echoes.",
     "An event at exactly the shutdown/restart instant is a tie and accepted either way. Old self-scheduled messages arriving after the restart are delivered (not flagged).",
     "DESIGN.md section 4, C09")
 
